@@ -18,7 +18,9 @@ m = {"merge iterator adapter":("D5",["C11","C08"]), "MergeCompact returns":("D6"
  "finishes the shutdown when":("D25",["C19"]), "renames the merged table last":("D26",["C02","C10","C06"]),
  "take the database folder itself":("D27",["C01","C02","C10","C17"]), "a Put that returns an error":("D28",["C17"]),
  "writers truncate the files":("D29",["C15","C14"]), "any over-long varint":("D30",["C12"]),
- "payload was cut off":("D31",["C04","C12"]), "zero-padded end":("D32",["C04"]), "never hands the caller":("D33",["C04"])}
+ "payload was cut off":("D31",["C04","C12"]), "zero-padded end":("D32",["C04"]), "never hands the caller":("D33",["C04"]),
+ "length of a decompressed record":("D34",["C09","C04"]), "checksum that means":("D35",["C09","C03"]),
+ "only trusts a hit":("D36",["C03"]), "truncates its zero padding":("D37",["C20","C04"])}
 # a later fix: commit that refines an earlier one has to be reverted together with it (newest first)
 also = {"D15": ["WAL sweep after a flush stays inside"], "D17": ["any over-long varint"], "D31": ["zero-padded end"], "D13": ["take the database folder itself"]}
 out = os.path.join(os.path.dirname(os.path.abspath(__file__)), "revert")
